@@ -75,6 +75,50 @@ def random_grammars(n, n_prods=(4, 5), max_rhs=3, nts=("S", "A", "B"), ts=("a", 
     return out
 
 
+def nullable_lists():
+    """Adjacent nullable lists (right- and left-recursive, shared or separate) after/around an element that
+    may nest the start symbol: several empty-span links appear late on one frontier.  Explored with inputs
+    one token longer than the Gamma scopes."""
+    out, seen = [], set()
+    elems = [(("X", ("a",)),), (("X", ("a",)), ("X", ("b", "X", "S")))]
+    lists = {"r": lambda n: ((n, ()), (n, ("X", n))), "l": lambda n: ((n, ()), (n, (n, "X")))}
+    shapes = [("X", "L", "L"), ("L", "L"), ("L", "X", "L"), ("X", "L", "M"), ("L", "M", "X"), ("X", "L", "L", "L")]
+    for el in elems:
+        for shape in shapes:
+            for sl in "rl":
+                for sm in ("rl" if "M" in shape else "r"):
+                    g = (("S", shape),) + lists[sl]("L") + (lists[sm]("M") if "M" in shape else ()) + el
+                    if g in seen:
+                        continue
+                    seen.add(g)
+                    terms = sorted({x for _, r in g for x in r if x.islower()})
+                    if CFG(g, {t: lit(t) for t in terms}).is_reduced():
+                        out.append(tuple((l, tuple(r)) for l, r in g))
+    return out
+
+
+def lookahead_chains():
+    """Unit chains ending in a nullable symbol, entered in the start state under two different look-aheads and
+    used again in a second context: look-aheads have to be pushed several levels deep inside one closure
+    and across LALR-merged states.  Terminals a, b (followers), c (opens the second context), d (chain leaf);
+    each grammar under top-down and bottom-up rule order."""
+    out = []
+    for depth in (1, 2, 3):
+        names = ["A", "B", "C"][:depth]
+        chain = [(names[i], (names[i + 1],)) for i in range(depth - 1)] + [(names[-1], ()), (names[-1], ("d",))]
+        for k in range(depth):
+            for f1, f2 in (("a", "b"), ("b", "a")):
+                for ctx_follow in ("a", "b"):
+                    top = [("S", (names[0], f1)), ("S", (names[0], f2)), ("S", ("c", names[k], ctx_follow))]
+                    for order in (chain, sorted(chain, key=lambda p: -names.index(p[0]))):
+                        g = tuple(top + list(order))
+                        terms = sorted({x for _, r in g for x in r if x.islower()})
+                        assert CFG(g, {t: lit(t) for t in terms}).is_reduced()
+                        if g not in out:
+                            out.append(tuple((l, tuple(r)) for l, r in g))
+    return out
+
+
 # ---- rule-order dimension ----------------------------------------------------------------------------
 # Fixpoint computations over the grammar (FIRST, FOLLOW, look-ahead propagation) iterate over rules in
 # declaration order; the exhaustive Gamma scopes fix that order, so a family of four-nonterminal
@@ -114,6 +158,13 @@ RECOVERY = [
     (("S", ("S", "a", "S")), ("S", ("b",))),
     (("S", ("a", "S", "b")), ("S", ("a", "b"))),
     (("S", ("A", "B")), ("A", ("a", "A")), ("A", ("a",)), ("B", ("b", "B")), ("B", ("b",))),
+]
+
+# grammars run over every string up to the length bound (not only corrupted sentences) in both tiers
+RECOVERY_ALL_STRINGS = [
+    # two heads recover at different positions (one at the next 'a', one at the end of input): 'bxaa'
+    (("S", ("B", "b")), ("S", ("A", "b", "a")), ("S", ("S", "B", "A")), ("A", ()), ("B", ("b",))),
+    (("S", ()), ("S", ("a",)), ("S", ("A", "b", "S")), ("A", ("B",)), ("B", ("a", "S", "a"))),
 ]
 
 
